@@ -44,6 +44,8 @@ def make_loop_index(s):
 
 def flint(n):
     """ int or float: of a number. """
+    if isinstance(n, int):
+        return int(n)
     try:
         return int(float(n)) if float(n) == int(float(n)) else float(n)
     except OverflowError:
